@@ -66,7 +66,7 @@ def dict_key_sites(fn: Func, dname: str) -> List[Tuple[ast.AST, ast.AST]]:
     return out
 
 
-LATER_RULES = " Later rules: (R18.7) module is absolute only at level 0; (R18.8) __import__('a.b') returns a; (R18.9) import a.b is used whenever a is; (R18.10) = C05 R5.5 for the tracing module; (R18.11) duplicates = same module, name and statement list; (R18.12) imports under try are never moved."
+LATER_RULES = " Later rules: (R18.7) module is absolute only at level 0; (R18.8) __import__('a.b') returns a; (R18.9) import a.b is used whenever a is; (R18.10) = C05 R5.5 for the tracing module; (R18.11) duplicates = same module, name and statement list; (R18.12) imports under try are never moved; (R18.15) a star import is removed as unused only when its export list can be determined, by a predicate that gives up wherever trace_origin does."
 
 
 def check(prog: Program, tier: str) -> Result:
@@ -169,15 +169,167 @@ def check(prog: Program, tier: str) -> Result:
     _r18_11(prog, res)
     _r18_12(prog, res)
     _r18_13(prog, res)
+    _r18_15(prog, res)
     # R18.10: where a module comes from is a fact about the disk and sys.path NOW
     from . import c05 as _c05
     anchors = [f.key for f in prog.funcs.values() if f.mod.name == "tracing"]
     _c05.adopt_memo_rule(prog, res, "R18.10", anchors,
                          "import normalisation must hold for ANY layout of the imported packages: a memoised lookup answers for the layout of an earlier call "
                          "(another working directory, an edited or moved module), so star-imports are expanded to names the module no longer exports")
-    res.floors.update({"R18.1": 6, "R18.2": 2, "R18.4": 1, "R18.5": 1, "R18.10": 3, "R18.11": 2, "R18.12": 1, "R18.13": 3, "R18.14": 1})
+    res.floors.update({"R18.1": 6, "R18.2": 2, "R18.4": 1, "R18.5": 1, "R18.10": 3, "R18.11": 2, "R18.12": 1, "R18.13": 3, "R18.14": 1, "R18.15": 3})
     res.analysed["importfrom_constructions"] = n
     return res
+
+
+# ------------------------------------------------------------------------------------------------ R18.15
+def _decided_no(n: ast.Continue, name_param: str) -> bool:
+    """The `continue` follows an answered membership question about the traced name (`if name in exports: return ..`): the star import
+    was analysed and does not export the name - not a give-up."""
+    def membership(t: ast.AST) -> bool:
+        return any(isinstance(c, ast.Compare) and isinstance(c.ops[0], (ast.In, ast.NotIn)) and isinstance(c.left, ast.Name) and c.left.id == name_param
+                   for c in ast.walk(t))
+    host = parent(n)
+    if isinstance(host, ast.If) and membership(host.test):
+        return True
+    siblings = None
+    for field in ("body", "orelse", "finalbody"):
+        lst = getattr(host, field, None)
+        if isinstance(lst, list) and n in lst:
+            siblings = lst[:lst.index(n)]
+    return any(isinstance(x, ast.If) and membership(x.test) and any(isinstance(r, ast.Return) for r in ast.walk(x)) for x in (siblings or []))
+
+
+def _r18_15(prog: Program, res: Result) -> None:
+    """`from m import *` that no name was traced to is removed as unused.  That conclusion needs the export list of m: where
+    trace_origin GIVES UP on a star import (relative import, module not found, not a .py file) no name can be traced to it
+    whatever it binds, and removing it unbinds every name it provided.  (a) the removal is reached only when a predicate on
+    the import said it is not such an import; (b) that predicate gives up wherever trace_origin does (sibling agreement on
+    the tests of the import and of the module's origin)."""
+    fn = prog.funcs.get(("tracing", "fix_starred_imports"))
+    tr = prog.funcs.get(("tracing", "trace_origin"))
+    if fn is None or tr is None:
+        raise AnalysisError("anchor tracing.fix_starred_imports / trace_origin not found")
+    pa = PathAnalysis(prog, fn)
+    removals = [y for y in walk_own(fn.node) if isinstance(y, ast.Yield) and isinstance(y.value, ast.Tuple) and len(y.value.elts) >= 2
+                and isinstance(y.value.elts[1], ast.Constant) and y.value.elts[1].value is None]
+    if not removals:
+        res.ok("R18.15", fn.loc(), fn.fq, "removal of star imports", "no star import is removed", trivial=True)
+    predicates = []
+    for y in removals:
+        victim = norm(y.value.elts[0])
+        found = None
+        for c in prog.calls_in(fn):
+            r = prog.resolve_call(c.func, fn.mod, fn)
+            if r and r[0] == "fn" and len(c.args) == 1 and norm(c.args[0]) == victim:
+                ok, _why = pa.holds_at(y, lambda w, c=c: pa.formula(c, w, False))
+                if ok:
+                    found = r[1]
+        res.decide(found is not None, "R18.15", fn.loc(y), fn.fq, f"{short(y, 60)} # a star import no name was traced to",
+                   f"removed only when {found.node.name}() said that its export list can be determined" if found is not None else
+                   "a star import is removed because no name was traced to it - also where trace_origin cannot determine what it binds (relative import, "
+                   "module not found, extension module): every name it provided becomes a NameError")
+        if found is not None:
+            predicates.append(found)
+    # (b) sibling agreement, on path conditions: wherever trace_origin gives up on a star import, the predicate answers True
+    import re as _re
+    from ..pathcond import And as _And, Or as _Or, atoms_of, entails, plain, subst
+    name_param = tr.posparams[0]
+
+    def roles(f: Func, subject: str):
+        origins = {t for t, defs in bindings(f).items() for _st, v in defs
+                   if v is not None and isinstance(v, ast.Call) and norm(v.func).endswith("_trace_module_source_file")}
+        def canon(atom: str) -> str:
+            text = plain(atom)
+            text = _re.sub(r"\bPath\((\w+)\)", r"\1", text)
+            text = _re.sub(rf"(?<![\w.]){_re.escape(subject)}(?![\w])", "<imp>", text)
+            for o in origins:
+                text = _re.sub(rf"(?<![\w.]){_re.escape(o)}(?![\w])", "<origin>", text)
+            return text
+        return canon
+
+    def relevant(f) -> bool:
+        return any("<imp>" in a or "<origin>" in a for a in atoms_of(f))
+
+    tr_pa = PathAnalysis(prog, tr)
+    giveups = []
+    for n in walk_own(tr.node):
+        if not isinstance(n, ast.Continue):
+            continue
+        worlds = tr_pa.worlds_at(n)
+        if not worlds or not all(any(fct[0] == "lit" and fct[2] and plain(fct[1]).replace(" ", "").startswith(("eq('*',", 'eq("*",')) for fct in w.facts) for w in worlds):
+            continue            # not in the star branch
+        # inside an exception handler: judged with the exception classes below
+        a, in_handler = parent(n), False
+        while a is not None and a is not tr.node:
+            in_handler = in_handler or isinstance(a, ast.ExceptHandler)
+            a = parent(a)
+        if in_handler or _decided_no(n, name_param):
+            continue
+        giveups.append((n, worlds))
+    if not giveups:
+        res.undecided("R18.15", tr.loc(), tr.fq, "the star branch of trace_origin", "no place where trace_origin gives up on a star import was found")
+        return
+    # subject of trace_origin: the variable whose `.level` / `.module` is tested
+    subj_tr = None
+    for n, _w in giveups:
+        t = parent(n)
+        if isinstance(t, ast.If):
+            for x in ast.walk(t.test):
+                if isinstance(x, ast.Attribute) and x.attr in ("level", "module") and isinstance(x.value, ast.Name):
+                    subj_tr = x.value.id
+    canon_tr = roles(tr, subj_tr or "node")
+    loop = None
+    start = min(n.lineno for n, _ in giveups)
+    a = parent(giveups[0][0])
+    while a is not None and not (isinstance(a, ast.For) and any(isinstance(x, ast.Attribute) and x.attr == "names" for x in ast.walk(a.iter))):
+        a = parent(a)
+    loop = a if a is not None else tr.node
+    for pred in {p.key: p for p in predicates}.values():
+        canon_p = roles(pred, pred.posparams[0])
+        ppa = PathAnalysis(prog, pred)
+        yes = []
+        for r in walk_own(pred.node):
+            if isinstance(r, ast.Return) and r.value is not None and not (isinstance(r.value, ast.Constant) and r.value.value is False):
+                a = parent(r)
+                while a is not None and a is not pred.node and not isinstance(a, ast.ExceptHandler):
+                    a = parent(a)
+                if isinstance(a, ast.ExceptHandler):
+                    continue            # answered only if something raised: not a consequence of the tests alone
+                for w in ppa.worlds_at(r):
+                    facts = [subst(fct, canon_p) for fct in w.facts]
+                    if not (isinstance(r.value, ast.Constant) and r.value.value is True):
+                        facts.append(subst(ppa.formula(r.value, w, True), canon_p))
+                    yes.append(_And(*[fct for fct in facts if relevant(fct)]))
+        goal = _Or(*yes) if yes else ("or", ())
+        missed = []
+        for n, worlds in giveups:
+            for w in worlds:
+                prem = [subst(fct, canon_tr) for fct in w.facts]
+                prem = [fct for fct in prem if relevant(fct)]
+                if not entails(prem, goal, max_atoms=16):
+                    host = parent(n)
+                    missed.append(f"line {n.lineno}" + (f" `{short(host.test, 50)}`" if isinstance(host, ast.If) else ""))
+                    break
+        res.decide(not missed, "R18.15", pred.loc(), pred.fq, f"{pred.node.name}() # gives up where trace_origin gives up ({len(giveups)} place(s))",
+                   "on every path on which trace_origin gives up on a star import, the predicate answers `cannot tell`" if not missed else
+                   f"trace_origin gives up on a star import at {sorted(set(missed))}, {pred.node.name}() answers `can tell` there: such an import is still removed as unused")
+    # handlers that give up on reading the module's source
+    wanted_exc: Set[str] = set()
+    for t in ast.walk(loop):
+        if isinstance(t, ast.Try) and t.lineno > start and any(isinstance(x, ast.Attribute) and x.attr in ("open", "read", "read_text") for st in t.body for x in ast.walk(st)):
+            for h in t.handlers:
+                if h.body and isinstance(h.body[-1], ast.Continue) and h.type is not None:
+                    wanted_exc |= {norm(e) for e in (h.type.elts if isinstance(h.type, ast.Tuple) else [h.type])}
+    for pred in {p.key: p for p in predicates}.values():
+        have_exc: Set[str] = set()
+        for h in ast.walk(pred.node):
+            if isinstance(h, ast.ExceptHandler) and h.type is not None and h.body and isinstance(h.body[-1], ast.Return) \
+                    and isinstance(h.body[-1].value, ast.Constant) and h.body[-1].value.value is True:
+                have_exc |= {norm(e) for e in (h.type.elts if isinstance(h.type, ast.Tuple) else [h.type])}
+        lost = sorted(wanted_exc - have_exc) if not ({"Exception", "BaseException"} & have_exc) else []
+        res.decide(not lost, "R18.15", pred.loc(), pred.fq, f"{pred.node.name}() # gives up where reading the module fails ({len(wanted_exc)} exception class(es))",
+                   f"{sorted(wanted_exc)} all answered with `cannot tell`" if not lost else
+                   f"trace_origin gives up when reading the module raises {lost}, {pred.node.name}() does not: a star import from a module that cannot be read or parsed is removed")
 
 
 # ------------------------------------------------------------------------------------------------ R18.13
@@ -600,8 +752,18 @@ def _r18_6(prog: Program, res: Result) -> None:
         if untraced:
             worlds = pa.worlds_at(y)
             ok = bool(worlds) and all(any(world_has(w, False, lambda t, u=u: t == u or t == f"len({u}) > 0") for u in untraced) for w in worlds)
+        how = f"reached only when no undefined name was left untraced ({sorted(untraced)} empty)"
+        if not ok:
+            # the other sufficient condition: the export list of THIS import can be determined (R18.15 judges the predicate), so a
+            # name that was not traced to it does not come from it
+            victim = norm(y.value.elts[0])
+            for c in prog.calls_in(fn):
+                r = prog.resolve_call(c.func, fn.mod, fn)
+                if r and r[0] == "fn" and len(c.args) == 1 and norm(c.args[0]) == victim and pa.holds_at(y, lambda w, c=c: pa.formula(c, w, False))[0] \
+                        and any(isinstance(x, ast.Return) and isinstance(x.value, ast.Constant) and x.value.value is True for x in walk_own(r[1].node)):
+                    ok, how = True, f"reached only when {r[1].node.name}() said that the export list of the import can be determined (R18.15)"
         res.decide(ok, "R18.6", fn.loc(y), fn.fq, f"{short(y, 50)} # deletion of a star import",
-                   f"reached only when no undefined name was left untraced ({sorted(untraced)} empty)" if ok else
+                   how if ok else
                    "star imports to which no name could be attributed are deleted even when undefined names of unknown origin remain: a name that comes from an "
                    "untraceable module (other platform, C extension, not installed) loses its binding")
     if not dels:
@@ -621,6 +783,12 @@ def _r18_6(prog: Program, res: Result) -> None:
 from ..selftest import Variant  # noqa: E402
 
 VARIANTS = [
+    Variant("opaque-star-imports-removed-again", "FIRE", "tracing", "        if _is_opaque_star_import(node):\n            continue  # No name was traced to it because what it binds is not known\n\n", "", "R18.15"),
+    Variant("predicate-forgets-relative-imports", "FIRE", "tracing", "    if node.level or node.module is None:\n        return True\n\n    origin = _trace_module_source_file(node.module)\n    if origin in", "    if node.module is None:\n        return True\n\n    origin = _trace_module_source_file(node.module)\n    if origin in", "R18.15"),
+    Variant("predicate-forgets-extension-modules", "FIRE", "tracing", "    if origin is None or Path(origin).suffix != \".py\":\n        return True\n\n    try:", "    if origin is None:\n        return True\n\n    try:", "R18.15"),
+    Variant("predicate-forgets-unparsable-modules", "FIRE", "tracing", "    except (OSError, UnicodeDecodeError, SyntaxError):\n        return True  # The other module cannot be read, or is not valid python", "    except (OSError, UnicodeDecodeError):\n        return True", "R18.15"),
+    Variant("star-counts-as-unused-import", "FIRE", "fixes", "    return {name for name in imports - names - {\"*\"} if name.split(\".\")[0] not in names}", "    return {name for name in imports - names if name.split(\".\")[0] not in names}", "R18.6"),
+    Variant("predicate-tests-in-one-expression", "SILENT", "tracing", "    if node.level or node.module is None:\n        return True\n\n    origin = _trace_module_source_file(node.module)\n    if origin in", "    if node.level:\n        return True\n    if node.module is None:\n        return True\n\n    origin = _trace_module_source_file(node.module)\n    if origin in", "R18.15"),
     Variant("imports-hoisted-onto-taken-names", "FIRE", "fixes",
             "    defined_names = tracing.get_defined_names(root)\n    imports_movable_to_toplevel = {\n        node\n        for node in imports_movable_to_toplevel\n        if defined_names.isdisjoint(\n            (alias.asname or alias.name).split(\".\")[0] for alias in node.names\n        )\n    }\n", "", "R18.14"),
     Variant("underscore-names-exported-again", "FIRE", "tracing", "        elif name.startswith(\"_\"):\n            return None  # Without __all__, a star import leaves out the names with a leading underscore\n", "", "R18.13"),
@@ -635,7 +803,7 @@ VARIANTS = [
     Variant("duplicate-from-imports-over-the-whole-tree", "FIRE", "fixes", "    for group in _group_statements_of_type(root, ast.ImportFrom):\n        module_import_aliases = collections.defaultdict(set)",
             "    for group in [list(core.walk(root, ast.ImportFrom))]:\n        module_import_aliases = collections.defaultdict(set)", "R18.11"),
     Variant("dotted-import-unused-when-not-spelled-out", "FIRE", "fixes",
-            "    return {name for name in imports - names if name.split(\".\")[0] not in names}\n", "    return imports - names\n", "R18.9"),
+            "    return {name for name in imports - names - {\"*\"} if name.split(\".\")[0] not in names}\n", "    return imports - names - {\"*\"}\n", "R18.9"),
     Variant("reimported-names-ignore-level", "FIRE", "tracing",
             "    for node in core.walk(root, ast.ImportFrom):\n        if node.level:\n            continue  # A relative import, node.module is not the name of a top level module\n\n",
             "    for node in core.walk(root, ast.ImportFrom):\n", "R18.7"),
@@ -651,8 +819,7 @@ VARIANTS = [
     Variant("star-imports-kept-while-names-are-untraced", "SILENT", "tracing",
             "    for name in undefined_names:\n        if trace_result := trace_origin(name, source):\n            if core.match_template(trace_result.ast, template):\n                starred_import_name_mapping[trace_result.ast].add(name)\n",
             "    untraced_names = set()\n    for name in undefined_names:\n        if trace_result := trace_origin(name, source):\n            if core.match_template(trace_result.ast, template):\n                starred_import_name_mapping[trace_result.ast].add(name)\n        else:\n            untraced_names.add(name)\n",
-            extra=[("tracing", "    # Remove remaining starred imports\n    for node in core.filter_nodes(root.body, template):", "    if untraced_names:\n        return\n\n    for node in core.filter_nodes(root.body, template):"),
-                   ("fixes", "    return {name for name in imports - names if name.split(\".\")[0] not in names}\n", "    return {name for name in imports - names - {'*'} if name.split(\".\")[0] not in names}\n")]),
+            extra=[("tracing", "    # Remove remaining starred imports\n    for node in core.filter_nodes(root.body, template):", "    if untraced_names:\n        return\n\n    for node in core.filter_nodes(root.body, template):")]),
     Variant("alias-found-under-its-original-name", "FIRE", "tracing",
             "                    original_name = next(\n                        alias.name\n                        for alias in module_import_node.names\n                        if alias.asname == name or (alias.asname is None and alias.name == name)\n                    )",
             "                    original_name = next(\n                        alias.name\n                        for alias in module_import_node.names\n                        if name in (alias.asname, alias.name)\n                    )", "R18.5"),
